@@ -488,7 +488,7 @@ func ruleC20(c *Ctx) {
 			}
 		}
 		c.count("C20-R5", n)
-		c.floor("C20-R5", 2)
+		c.floor("C20-R5", 1)
 	}
 
 	// R2 + R3
